@@ -12,10 +12,10 @@ import ast
 
 from ..model import src
 from ..report import Report, key_of
-from ..terms import assume, cond_leaves, dag_nodes, pretty
+from ..terms import assume, cond_leaves, dag_nodes, has_opaque, pretty
 from ..types import Ctx
 from .c08 import check_name_tests
-from .common import TRUSTED_BASE, bound_args, cfg_nodes_for, expanded_facts, facts_text, inl, loop_runs_to_end, src_resolved, subst_single_assign, where
+from .common import TRUSTED_BASE, bound_args, cfg_nodes_for, expanded_facts, facts_text, inl, loop_runs_to_end, normal_succ, src_resolved, subst_single_assign, where
 from .purity import check_stateless
 
 
@@ -542,6 +542,54 @@ def run(A, R: Report, thorough: bool):
     prep = any(isinstance(n, ast.Call) and src(n.func) == 'use._prepare' for n in A.typer.own_nodes(fpc))
     R.check(ctx_ok and ns_ok and prep, 'R09.4', 'Chain._process_config: Config object in uses', key_of('object-branch', ctx_ok, ns_ok, prep), 'context and composed namespace assigned, config re-prepared',
             'a Config object listed in `uses` does not receive the context / composed namespace (or is not re-prepared with them)', where=where(fpc))
+    # _prepare() applies the context under the namespace the config has at that moment: it comes after the last store of namespace / context
+    cfg4 = A.cfg(fpc)
+    preps = [n for n in A.typer.own_nodes(fpc) if isinstance(n, ast.Call) and src(n.func) == 'use._prepare']
+    heads4 = [n.id for n in cfg4.nodes.values() if n.kind == 'for']
+    late = None
+    for pc in preps:
+        starts = [v for cn in cfg_nodes_for(cfg4, pc) for v in normal_succ(cfg4, cn.id)]
+        targets = [cn.id for st in obj_branch for cn in cfg_nodes_for(cfg4, st)]
+        pth = cfg4.find_path(starts, targets, avoid=heads4) if starts and targets else None
+        if pth is not None:
+            late = (pc, pth)
+    if preps:
+        R.check(late is None, 'R09.4', 'Chain._process_config: re-preparation of a used Config object', key_of('prepare-last', late is None), 'namespace and context are final when the config is prepared',
+                'the used config is prepared (context applied, per-namespace entries selected) before its namespace / context is assigned: `for_namespaces` entries are looked up under the namespace it had before it was '
+                'mounted, so entries for the composed namespace are ignored and entries for the bare one leak in', witness=cfg4.describe_path(late[1]) if late else None, where=where(fpc, late[0]) if late else where(fpc))
+
+    # ---- R09.13 the identity under which a config is processed once names its part, with and without a namespace
+    R.rule('R09.13', 'Config.repr_name (the key under which Chain._process_config skips configs it has seen) contains file path and part on every path, also for a config with a namespace', floor=1)
+    frn13 = cfgc.lookup('repr_name')
+    R.require(frn13 is not None, 'anchor: Config.repr_name missing')
+    rt13 = A.sym.func_term(frn13, ('inst', cfgc))
+    fp13, part13, ns13 = ('attr', ('self',), '_filepath'), ('attr', ('self',), '_part'), ('attr', ('self',), 'namespace')
+
+    def _with(ns_given):
+        def dec(c):
+            if c in (fp13, part13):
+                return True
+            if c in (('cmp', 'Is', fp13, ('lit', None)), ('cmp', 'Is', part13, ('lit', None))):
+                return False
+            if c == ns13:
+                return ns_given
+            if c == ('cmp', 'Is', ns13, ('lit', None)):
+                return not ns_given
+            if c == ('cmp', 'IsNot', ns13, ('lit', None)):
+                return ns_given
+            return None
+        return assume(rt13, dec)
+    for ns_given in (False, True):
+        v13 = _with(ns_given)
+        construct = f'Config.repr_name ({"with" if ns_given else "without"} namespace)'
+        if has_opaque(v13):
+            R.undecided('R09.13', construct, 'identifier could not be evaluated symbolically', where=where(frn13))
+            continue
+        leaves = cond_leaves(v13)
+        ok13 = all(part13 in dag_nodes(l_) and fp13 in dag_nodes(l_) for l_ in leaves)
+        R.check(ok13, 'R09.13', construct, key_of('part-in-repr-name', ns_given, ok13), 'file path and part are part of the identity',
+                f'for a config taken from part `p` of a file {"mounted under a namespace " if ns_given else ""}the identity is `{pretty(v13)[:100]}`: two parts of one file that land in the same namespace get the same identity, '
+                'and Chain._process_config silently skips the second - its tasks are missing from the chain (or a dependant fails with "Input task not found")', witness=[pretty(rt13)[:300]], where=where(frn13))
 
     # ---- R09.5
     R.rule('R09.5', 'a missing required value and a value of the wrong type raise at construction; explicit values (also None) are taken from the config', floor=3)
